@@ -37,6 +37,10 @@ func init() {
 }
 
 func runC04(c *fw.Case) {
+	if c.Index%8 == 7 { // compiled packages under wazero: slow jobs, other timing between walker and scheduler
+		runCompiledScenario(c, "C04")
+		return
+	}
 	s := newScen(c, gen.PkgOpts{})
 	defer s.close()
 	outs := s.outputs()
